@@ -64,6 +64,7 @@ class Agg:
         self.samples = []
         self.states = set()
         self.errors = []
+        self.known = {}            # (signature, oracle) -> first example
 
     def merge(self, o):
         self.evaluations += o.evaluations
@@ -72,6 +73,8 @@ class Agg:
         self.violations.extend(o.violations)
         self.states |= o.states
         self.errors.extend(o.errors)
+        for k, v in o.known.items():
+            self.known.setdefault(k, v)
         for s in o.samples:
             if len(self.samples) < 6:
                 self.samples.append(s)
@@ -132,13 +135,7 @@ def run_units(prop, unit_iter, jobs, budget_s, chunk=40, wall=600):
     return total, time.time() - t0
 
 
-# ----------------------------------------------------------------------------- known findings
-def load_known():
-    p = os.path.join(VERIF, "known_findings.json")
-    if not os.path.exists(p):
-        return {"known": [], "fixed": []}
-    with open(p) as f:
-        return json.load(f)
+from .util import load_known, known_entry  # noqa: E402
 
 
 # ----------------------------------------------------------------------------- main
@@ -209,13 +206,14 @@ def main(argv=None):
     real = []
     known_hit = {}
     for v in viols:
-        sig = v.get("signature")
-        if sig is not None:
-            k = [e for e in known["known"] if e["property"] == prop and e["signature"] == sig]
-            if k:
-                known_hit.setdefault(sig, (k[0], v))
-                continue
+        e = known_entry(prop, v.get("signature"), v["oracle"])
+        if e is not None:
+            known_hit.setdefault(v["signature"], (e, v))
+            continue
         real.append(v)
+    for (sig, oracle), v in sorted(total.known.items()):
+        e = known_entry(prop, sig, oracle)
+        known_hit.setdefault(sig, (e, v))
     for sig, (entry, v) in sorted(known_hit.items()):
         out_lines.append(f"KNOWN-FINDING: property={prop} {entry['id']} [{sig}] {entry['what']}")
     replay_paths = []
